@@ -327,7 +327,7 @@ public:
         for (int t = 0; ce->file.size() > 20000 && t < 3; t++) ce = &g_corpus[r.below(g_corpus.size())];
         op["corpus"] = ce->name;
       } else if (k < 6) op["hex"] = sim::toHex(unwrittenTemplate(r));
-      else { gen::ImgCfg ic; ic.maxWords = 96; ic.undefPerMille = 25; Rng ir = r.fork(3); op["hex"] = sim::toHex(gen::makeImage(ir, ic)); }   // more undefined bytes and call numbers than elsewhere: hexsim's error path is part of C12
+      else { gen::ImgCfg ic; ic.maxWords = 96; ic.undefPerMille = 25; ic.spIntoCodePerMille = 150; Rng ir = r.fork(3); op["hex"] = sim::toHex(gen::makeImage(ir, ic)); }   // more undefined bytes and call numbers than elsewhere: hexsim's error path is part of C12
       if (!op.has("corpus") && r.chance(1, 4)) op["tail_cut"] = (unsigned long long)(1 + r.below(3));
       else if (!op.has("corpus") && r.chance(1, 2)) {
         // A symbol table behind the image, as the assembler writes for PROC/FUNC: the trace labels
